@@ -112,6 +112,10 @@ fn ed_pk8(seed: u64) -> Vec<u8> {
 }
 
 /// PKCS#8 private key document of a spec (for key-file fault injection).
+pub fn rsa2048_pk8() -> &'static [u8] {
+    RSA2048
+}
+
 pub fn pkcs8_of(spec: KeySpec) -> Vec<u8> {
     match spec.kind {
         KeyKind::Ed | KeyKind::EdPk8 => ed_pk8(spec.seed),
